@@ -90,6 +90,21 @@ def after_failed_shapes(ctx):
             items.append({'wf': wf2, 'oc': {'a': okoc(), 'b': okoc()}, 'script': script, 'input': inputs[-1], 'inputs': inputs, 'schedule': None,
                           'extra': {'runs': runs, 'overlap': False, 'timeout_ms': 30000}, 'want': ['success'], 'want_override': override,
                           'nomeaning': True, 'mode': 'after-failed', 'at': 'after-evaluation-failure %s' % (pattern,)})
+        # the deployment configuration of a step is an expression over the workflow input: every run deploys with ITS
+        # configuration (here: whether the deployment succeeds at all), whatever an earlier or overlapping run evaluated
+        wf3 = {'steps': {'a': {'kind': 'plugin', 'pstep': 'work', 'fields': {
+                   'input': tmap({'id': lit('a'), 's': ref('input.x')}),
+                   'deploy': tmap({'deployer_name': lit('scripted'), 'mode': ref('input.x'), 'tag': ref('input.x')})}}},
+               'outputs': {'success': tmap({'r': ref('steps.a.outputs.success.tok')}), 'nodeploy': tmap({'e': ref('steps.a.deploy_failed.error.error')})}}
+        for pattern, overlap in ([(('ok', 'fail', 'ok'), False), (('fail', 'ok'), True)] if ctx.quick else
+                                 [(('ok', 'fail', 'ok'), False), (('fail', 'ok', 'fail'), False), (('fail', 'ok'), True), (('ok', 'fail', 'ok'), True)]):
+            inputs = [dict(base, x=v) for v in pattern]
+            runs = [{'input': i, 'start_delay_ms': 3 * k if overlap else 0} for k, i in enumerate(inputs)]
+            override = {k: (['success'] if v == 'ok' else ['nodeploy']) for k, v in enumerate(pattern)}
+            items.append({'wf': wf3, 'oc': {'a': okoc()}, 'script': {'a': {'exec': {'out': 'success', 'delay_ms': 10}}}, 'input': inputs[-1], 'inputs': inputs,
+                          'schedule': None, 'extra': {'runs': runs, 'overlap': overlap, 'timeout_ms': 30000},
+                          'want': override[len(pattern) - 1], 'want_override': override,
+                          'nomeaning': True, 'mode': 'per-run-deploy-config', 'at': 'deploy-config %s overlap=%s' % (pattern, overlap)})
         return items
     return f
 
